@@ -73,7 +73,7 @@ constexpr auto move_only_remap(std::uint32_t code) -> std::uint32_t
 template <typename T, std::size_t N>
 struct SV {
     using V                  = etl::static_vector<T, N>;
-    static constexpr bool CP = copyable<kind_of<T>::value>;
+    static constexpr bool CP = std::is_copy_constructible_v<T>;
     // static_vector<move-only> declares its move assignment with `requires is_assignable_v<T&, T&>` (i.e. it asks for copy
     // assignment), so it is neither move-assignable nor swappable (swap's body needs the move assignment): those ops do
     // not compile for TMO on this tree and are therefore not part of the check for TMO.
@@ -436,7 +436,7 @@ static_assert(sizeof(icode_names) / sizeof(icode_names[0]) == I_NCODES);
 template <typename T, std::size_t N>
 struct IV {
     using V                  = etl::inplace_vector<T, N>;
-    static constexpr bool CP = copyable<kind_of<T>::value>;
+    static constexpr bool CP = std::is_copy_constructible_v<T>;
 
     static auto run(OpsCase const& k, int stats) -> std::string
     {
@@ -585,7 +585,7 @@ template <typename T, std::size_t N>
 struct STK {
     using C                  = etl::static_vector<T, N>;
     using V                  = etl::stack<T, C>;
-    static constexpr bool CP = copyable<kind_of<T>::value>;
+    static constexpr bool CP = std::is_copy_constructible_v<T>;
     static constexpr bool MA = std::is_move_assignable_v<C>; // stack::swap needs a swappable container (see SV::MA)
     struct Peek : V { // read access to the protected container
         static auto cont(V const& v) -> C const& { return v.*(&Peek::c); }
